@@ -440,7 +440,9 @@ func (s *Sim) pick(ts []transition) transition {
 // test goroutine of a synctest bubble; cfg.Wait must be synctest.Wait.
 func Run(cfg Config, root func()) *Result {
 	if cfg.MaxSteps == 0 {
-		cfg.MaxSteps = 20000
+		// generous: a report over years of daily periods legitimately takes tens of
+		// thousands of transitions (days x pipeline stages x 2)
+		cfg.MaxSteps = 400000
 	}
 	if cfg.MaxTasks == 0 {
 		cfg.MaxTasks = 2000
